@@ -23,20 +23,12 @@ Lemma config_of_with_hr hr hr' g vw p0 T cap :
   config_of hr' g vw p0 T cap = with_hr (config_of hr g vw p0 T cap) hr'.
 Proof. unfold config_of. destruct (work_share (length p0) T). reflexivity. Qed.
 
-Lemma load_bounds vw p q : Forall (fun x => 0 <= x) vw -> 0 <= load vw p q <= sumZ vw.
-Proof.
-  intros H. revert p. induction H as [|w vw Hw _ IH]; intros p; [cbn; lia|].
-  change (sumZ (w :: vw)) with (w + sumZ vw). destruct p as [|x p]; cbn [load].
-  - pose proof (IH []). destruct vw; cbn [load] in *; lia.
-  - specialize (IH p). destruct (Nat.eqb x q); lia.
-Qed.
-
 Lemma thread_max_ext cf hr' pw :
   Forall (fun x => hr' (cf_cap cf - x) (cf_tc cf) = cf_hr cf (cf_cap cf - x) (cf_tc cf)) pw ->
   thread_max (with_hr cf hr') pw = thread_max cf pw.
 Proof.
   induction 1 as [|x pw Hx _ IH]; [reflexivity|].
-  cbn [thread_max with_hr cf_hr cf_cap cf_tc]. rewrite Hx.
+  cbn [thread_max with_hr cf_hr cf_cap cf_tc w_sub w_add wops_Z]. rewrite Hx.
   change (thread_max (with_hr cf hr') pw) with (thread_max (with_hr cf hr') pw) in IH.
   cbn [with_hr] in IH. rewrite IH. reflexivity.
 Qed.
@@ -60,82 +52,103 @@ Proof.
     + intros Hd. pose proof (Z.mul_quot_ge d n Hd N0). nia.
 Qed.
 
-Section Share.
+(* two share functions that agree on the operands that arise give the same machine *)
+Section Agree.
 Variable cf : config.
+Variable hr' : Z -> nat -> option Z.
+Variable slack : Z.
 Let g := cf_g cf.
 Let k := cf_k cf.
 Let vw := cf_vw cf.
-Let cff := with_hr cf headroom_f64.
+Let cf' := with_hr cf hr'.
 Variable p0 : list nat.
-Hypothesis Hquot : cf_hr cf = headroom_quot.
 Hypothesis Hg : graph_ok g.
 Hypothesis len_p0 : length p0 = length g.
 Hypothesis ids_p0 : Forall (fun x => (x < k)%nat) p0.
 Hypothesis vw_nonneg : Forall (fun x => 0 <= x) vw.
-Hypothesis tc_range : 1 <= Z.of_nat (cf_tc cf) <= 2 ^ 53.
-Hypothesis small : Z.abs (cf_cap cf) + sumZ vw < 2 ^ 53.
+Hypothesis slack_nonneg : 0 <= slack.
+Hypothesis Hon : hr_ok_on cf slack.
+Hypothesis agree : forall x, 0 <= x <= sumZ vw ->
+  hr' (cf_cap cf - x) (cf_tc cf) = cf_hr cf (cf_cap cf - x) (cf_tc cf).
 
-Lemma share_agree x : 0 <= x <= sumZ vw ->
-  headroom_f64 (cf_cap cf - x) (cf_tc cf) = cf_hr cf (cf_cap cf - x) (cf_tc cf).
-Proof. intros Hx. rewrite Hquot. unfold headroom_quot. apply headroom_f64_exact; lia. Qed.
-
-Lemma thread_max_loads part : length part = length part ->
-  thread_max cff (loads vw part k) = thread_max cf (loads vw part k).
+Lemma thread_max_loads part : thread_max cf' (loads vw part k) = thread_max cf (loads vw part k).
 Proof.
-  intros _. apply thread_max_ext. apply (Forall_of_nz _ _ k).
+  apply thread_max_ext. apply (Forall_of_nz _ _ k).
   - unfold loads. now rewrite map_length, seq_length.
-  - intros q Hq. rewrite nz_loads by exact Hq. apply share_agree. now apply load_bounds.
+  - intros q Hq. rewrite nz_loads by exact Hq. apply agree. now apply load_bounds.
 Qed.
 
-Lemma init_eq : init_state cff p0 = init_state cf p0.
+Lemma init_eq : init_state cf' p0 = init_state cf p0.
 Proof.
-  unfold init_state. change (cf_vw cff) with vw. change (cf_k cff) with k.
+  unfold init_state. rewrite !wloads_Z. change (cf_vw cf') with vw. change (cf_k cf') with k.
   change (cf_vw cf) with vw. change (cf_k cf) with k.
-  rewrite (thread_max_loads p0 eq_refl). reflexivity.
+  rewrite (thread_max_loads p0). reflexivity.
 Qed.
 
-Lemma end_pass_eq st : g_fin st = false -> cinv cf p0 st -> end_pass cff st = end_pass cf st.
+Lemma end_pass_eq st : g_fin st = false -> cinv cf slack p0 st -> end_pass cf' st = end_pass cf st.
 Proof.
   intros Hnf Hc. unfold end_pass.
-  change (cf_tc cff) with (cf_tc cf). change (cf_k cff) with (cf_k cf).
-  destruct (merged_pw_loads cf p0 len_p0 st Hnf Hc) as [Lm Nm].
+  change (cf_tc cf') with (cf_tc cf). change (cf_k cf') with (cf_k cf).
+  destruct (merged_pw_loads cf slack p0 len_p0 st Hnf Hc) as [Lm Nm].
   set (pw' := pw_merge (cf_tc cf) (pw_sum (cf_k cf) (g_ws st)) (g_pw st)) in *.
-  assert (E : thread_max cff pw' = thread_max cf pw').
+  assert (E : thread_max cf' pw' = thread_max cf pw').
   { apply thread_max_ext. apply (Forall_of_nz _ _ (cf_k cf) Lm).
-    intros q Hq. rewrite (Nm q Hq). apply share_agree. now apply load_bounds. }
+    intros q Hq. rewrite (Nm q Hq). apply agree. now apply load_bounds. }
   rewrite E. reflexivity.
 Qed.
 
-Lemma step_eq st t : ginv cf p0 st -> cinv cf p0 st -> step cff st t = step cf st t.
+Lemma step_eq st t : ginv cf p0 st -> cinv cf slack p0 st -> step cf' st t = step cf st t.
 Proof.
   intros Hgi Hci. unfold step.
   destruct (g_fin st) eqn:Hnf; [reflexivity|].
   destruct (nth_opt (g_ws st) t) as [w|] eqn:Hw; [|reflexivity].
-  change (wstep cff (g_tmax st) (g_locks st) (g_part st) w) with (wstep cf (g_tmax st) (g_locks st) (g_part st) w).
+  change (wstep cf' (g_tmax st) (g_locks st) (g_part st) w) with (wstep cf (g_tmax st) (g_locks st) (g_part st) w).
   destruct (wstep cf _ _ _ w) as [[[locks' part'] w']|] eqn:Hstep; [|reflexivity].
   destruct (all_done _); [|reflexivity].
   apply end_pass_eq; [reflexivity|].
-  exact (wstep_cinv cf vw_nonneg p0 len_p0 _ _ _ _ _ _ Hnf Hci Hgi Hw Hstep).
+  exact (wstep_cinv cf vw_nonneg slack p0 len_p0 _ _ _ _ _ _ Hnf Hci Hgi Hw Hstep).
 Qed.
 
-Lemma run_eq sch : forall st, ginv cf p0 st -> cinv cf p0 st -> run cff st sch = run cf st sch.
+Lemma run_eq sch : forall st, ginv cf p0 st -> cinv cf slack p0 st -> run cf' st sch = run cf st sch.
 Proof.
   induction sch as [|t sch IH]; intros st Hgi Hci; [reflexivity|].
   cbn [run]. rewrite (step_eq st t Hgi Hci).
   destruct (step cf st t) as [st1|] eqn:Hs; [|reflexivity].
   destruct Hg as [G1 G2 G3]. apply IH.
   - eapply step_ginv; eauto.
-  - eapply (step_cinv cf vw_nonneg (headroom_quot_ok cf Hquot)); eauto.
+  - eapply (step_cinv cf vw_nonneg slack slack_nonneg Hon); eauto.
 Qed.
 
-(* same initial state, same run on every schedule *)
-Theorem f64_share_irrelevant :
-  init_state cff p0 = init_state cf p0 /\
-  forall st0 sch, init_state cf p0 = Some st0 -> run cff st0 sch = run cf st0 sch.
+Theorem share_agree_irrelevant :
+  init_state cf' p0 = init_state cf p0 /\
+  forall st0 sch, init_state cf p0 = Some st0 -> run cf' st0 sch = run cf st0 sch.
 Proof.
   split; [exact init_eq|]. intros st0 sch Hi. destruct Hg as [G1 G2 G3]. apply run_eq.
   - eapply init_ginv; eauto.
   - eapply init_cinv; eauto.
+Qed.
+End Agree.
+
+(* below 2^53: the f64 share against the exact quotient *)
+Section Share.
+Variable cf : config.
+Variable p0 : list nat.
+Hypothesis Hquot : cf_hr cf = headroom_quot.
+Hypothesis Hg : graph_ok (cf_g cf).
+Hypothesis len_p0 : length p0 = length (cf_g cf).
+Hypothesis ids_p0 : Forall (fun x => (x < cf_k cf)%nat) p0.
+Hypothesis vw_nonneg : Forall (fun x => 0 <= x) (cf_vw cf).
+Hypothesis tc_range : 1 <= Z.of_nat (cf_tc cf) <= 2 ^ 53.
+Hypothesis small : Z.abs (cf_cap cf) + sumZ (cf_vw cf) < 2 ^ 53.
+
+Theorem f64_share_irrelevant :
+  init_state (with_hr cf headroom_f64) p0 = init_state cf p0 /\
+  forall st0 sch, init_state cf p0 = Some st0 -> run (with_hr cf headroom_f64) st0 sch = run cf st0 sch.
+Proof.
+  apply (share_agree_irrelevant cf headroom_f64 0 p0 Hg len_p0 ids_p0 vw_nonneg ltac:(lia)).
+  - intros d h _ Hh. destruct (headroom_quot_ok cf Hquot d h Hh) as [A B]. split; [|exact B].
+    intros Hd. destruct (A Hd). split; lia.
+  - intros x Hx. rewrite Hquot. unfold headroom_quot. apply headroom_f64_exact; lia.
 Qed.
 End Share.
 
@@ -183,4 +196,23 @@ Proof.
   rewrite Ecf in Hi, Hr. rewrite Ei in Hi. rewrite (Er st0 sch Hi) in Hr.
   pose proof (arcswap_safe cq p0) as S. rewrite E1, E2, E3, E4 in S.
   apply (S Hg Hl (part_count_bound p0) Hvw (headroom_quot_ok cq E5) st0 sch st Hi Hr).
+Qed.
+
+(* ------ the share divided in W (exact quotient): the strict property for ALL integer inputs ------ *)
+
+Theorem arcswap_caps_i64_all in_W g vw p0 T cap st0 sch st : in_W = true ->
+  graph_ok g -> length p0 = length g -> Forall (fun x => 0 <= x) vw ->
+  let cf := config_of (share_i64 in_W) g vw p0 T cap in
+  init_state cf p0 = Some st0 -> run cf st0 sch = Some st ->
+  no_adjacent_critical g st
+  /\ cut g p0 - cut g (g_part st) = total_gain st /\ 0 <= total_gain st
+  /\ (forall q, (q < part_count p0)%nat -> load vw (g_part st) q <= Z.max (load vw p0 q) cap)
+  /\ length (g_part st) = length p0 /\ Forall (fun x => (x < part_count p0)%nat) (g_part st)
+  /\ relabelled p0 (g_part st) <= total_moves st
+  /\ (g_fin st = true -> total_gain st = md_gain (g_md st) /\ total_moves st = md_moves (g_md st)).
+Proof.
+  intros -> Hg Hl Hvw cf Hi Hr. cbn [share_i64] in cf.
+  destruct (config_of_fields headroom_quot g vw p0 T cap) as (E1 & E2 & E3 & E4 & E5). fold cf in E1, E2, E3, E4, E5.
+  pose proof (arcswap_safe cf p0) as S. rewrite E1, E2, E3, E4 in S.
+  apply (S Hg Hl (part_count_bound p0) Hvw (headroom_quot_ok cf E5) st0 sch st Hi Hr).
 Qed.
